@@ -118,12 +118,13 @@ theorem lookupField_hid {hid pre : List Field} {n : String} (hvis : ∀ x ∈ hi
   lookupField_append_right (lookupField_eq_none hvis)
 
 /-- a member referenced by name: its integer local -/
-theorem Sim.int {σ : PyState} {st : DecState} {hid pre : List Field} (h : Sim σ st hid pre) {n : String} {p : FK → Bool}
+theorem Sim.int {σ : PyState} {st : DecState} {full hid pre : List Field} (h : Sim σ st hid pre) {n : String} {p : FK → Bool}
+    (hlk : ∀ n, (∀ x ∈ hid, x.name ≠ n) → lookupField full n = lookupField pre n)
     (hvis : ∀ x ∈ hid, x.name ≠ n)
-    (href : refOk (hid ++ pre) n p = true) {i : Int} (hi : envInt st.env n = .ok i) :
+    (href : refOk full n p = true) {i : Int} (hi : envInt st.env n = .ok i) :
     ∃ gk, gk ∈ pre ∧ gk.name = n ∧ p gk.kind = true ∧ σ.getInt (localName gk) = .ok i := by
   unfold refOk at href
-  rw [lookupField_hid hvis] at href
+  rw [hlk n hvis] at href
   cases hl : lookupField pre n with
   | none => simp [hl] at href
   | some gk =>
@@ -144,10 +145,11 @@ variable {S : Schema} {T : String → Bytes → Bytes} {r : Rec} {d : StructDef}
 
 /-- what `decPayload` reads for a member, the emitted load expression reads too, and the emitted slice bound
     is the advance -/
-theorem payload_sim {σ : PyState} {st : DecState} {hid pre : List Field} (hS : Sim σ st hid pre)
+theorem payload_sim {σ : PyState} {st : DecState} {full hid pre : List Field} (hS : Sim σ st hid pre)
+    (hlk : ∀ n, (∀ x ∈ hid, x.name ≠ n) → lookupField full n = lookupField pre n)
     (hnn : ∀ ty b v, r.dec ty b = .ok v → v ≠ .none)
     {f : Field} (hfresh : ∀ x ∈ pre, localName x ≠ localName f) (hvis : ∀ n ∈ refsOf f, ∀ x ∈ hid, x.name ≠ n)
-    {isLast : Bool} (hwf : wfFieldAt S d (hid ++ pre) f isLast = true) (hg : wfgdKind f = true)
+    {isLast : Bool} (hwf : wfFieldAt S d full f isLast = true) (hg : wfgdKind f = true)
     {src : BufSrc} (hsrc1 : ∀ ty l, f.kind = .ref ty (some l) → src = .limited l)
     (hsrc2 : ∀ ty, f.kind = .ref ty none → src = .var "buffer")
     {v : Val} {adv : Nat} (hpay : decPayload S T r st.env f st.buf = .ok (v, adv)) :
@@ -208,7 +210,7 @@ theorem payload_sim {σ : PyState} {st : DecState} {hid pre : List Field} (hS : 
       obtain ⟨n, hn, hpay⟩ := bind_eq_ok.mp hpay
       obtain ⟨hd, hadv⟩ := core _ hpay
       refine ⟨?_, hadv⟩
-      obtain ⟨gk, hgm, hgn, hgk, hgi⟩ := hS.int (hvis _ (by simp [refsOf, hk])) hwf hn
+      obtain ⟨gk, hgm, hgn, hgk, hgi⟩ := hS.int hlk (hvis _ (by simp [refsOf, hk])) hwf hn
       obtain ⟨w', s', hkk⟩ := isSizeOf_of hgk
       have h0 : 0 ≤ n := hS.nonneg gk hgm (by rw [hkk]; rfl) n (by rw [hgn]; exact envInt_ok hn)
       have hloc : localName gk = l := by rw [← hgn]; exact localName_raw (by rw [hgn]; exact hg.2)
@@ -222,7 +224,7 @@ theorem payload_sim {σ : PyState} {st : DecState} {hid pre : List Field} (hS : 
     · rename_i hle
       simp only [Except.ok.injEq, Prod.mk.injEq] at hpay
       obtain ⟨rfl, rfl⟩ := hpay
-      obtain ⟨gk, hgm, hgn, hgk, hgi⟩ := hS.int (hvis _ (by simp [refsOf, hk])) hwf hn
+      obtain ⟨gk, hgm, hgn, hgk, hgi⟩ := hS.int hlk (hvis _ (by simp [refsOf, hk])) hwf hn
       obtain ⟨w', s', a', hkk⟩ := isCount_of hgk
       have h0 : 0 ≤ n := hS.nonneg gk hgm (by rw [hkk]; rfl) n (by rw [hgn]; exact envInt_ok hn)
       have hraw := rawNameOk_iff.mp hg.2
@@ -264,7 +266,7 @@ theorem payload_sim {σ : PyState} {st : DecState} {hid pre : List Field} (hS : 
         obtain ⟨ss, hss, hpay⟩ := bind_eq_ok.mp hpay
         simp only [Except.ok.injEq, Prod.mk.injEq] at hpay
         obtain ⟨rfl, rfl⟩ := hpay
-        obtain ⟨gk, hgm, hgn, -, hgi⟩ := hS.int (hvis _ (by simp [refsOf, hk])) href hn
+        obtain ⟨gk, hgm, hgn, -, hgi⟩ := hS.int hlk (hvis _ (by simp [refsOf, hk])) href hn
         have hloc : localName gk = cf := by rw [← hgn]; exact localName_raw (by rw [hgn]; exact hg.2)
         rw [hloc] at hgi
         refine ⟨?_, ?_⟩
@@ -280,7 +282,7 @@ theorem payload_sim {σ : PyState} {st : DecState} {hid pre : List Field} (hS : 
       · simp [bind, Except.bind, throw, throwThe, MonadExceptOf.throw] at hpay
       · simp only [Except.ok.injEq, Prod.mk.injEq] at hpay
         obtain ⟨rfl, rfl⟩ := hpay
-        obtain ⟨gk, hgm, hgn, hgk, hgi⟩ := hS.int (hvis _ (by simp [refsOf, hk])) href hn
+        obtain ⟨gk, hgm, hgn, hgk, hgi⟩ := hS.int hlk (hvis _ (by simp [refsOf, hk])) href hn
         obtain ⟨w', s', hkk⟩ := isByteSize_of hgk
         have h0 : 0 ≤ n := hS.nonneg gk hgm (by rw [hkk]; rfl) n (by rw [hgn]; exact envInt_ok hn)
         have hloc : localName gk = sf := by rw [← hgn]; exact localName_raw (by rw [hgn]; exact hg.2)
